@@ -79,7 +79,7 @@ fn part() -> HistPart<Mon, impl Fn(&crate::ops::Setup) -> Mon + Sync> {
         name: "histories",
         sp,
         p,
-        cases_quick: 30_000,
+        cases_quick: 90_000,
         cases_thorough: 2_000_000,
         mk: |s: &crate::ops::Setup| Mon { codec: s.codec, nontrivial: Vec::new(), sends: 0, chooser_with_own_record: 0 },
     }
@@ -105,7 +105,7 @@ fn part_takeover() -> HistPart<Mon, impl Fn(&crate::ops::Setup) -> Mon + Sync> {
         name: "histories-with-address-takeover",
         sp,
         p,
-        cases_quick: 30_000,
+        cases_quick: 90_000,
         cases_thorough: 2_000_000,
         mk: |s: &crate::ops::Setup| Mon { codec: s.codec, nontrivial: Vec::new(), sends: 0, chooser_with_own_record: 0 },
     }
